@@ -73,6 +73,9 @@ func (p *prop) Generate(rng *core.Rand, tier string, emit func(string)) {
 	for i := 0; i < nSite/5; i++ {
 		emit(genDbindCase(rgl))
 	}
+	for i := 0; i < nSite/4; i++ {
+		emit(genKbindCase(rgl))
+	}
 	// ---- named routes and invoke: no directive lost, every invoked route emitted
 	for i := 0; i < nSite/4; i++ {
 		emit(genNrCase(rgl))
